@@ -253,6 +253,43 @@ func verifLemmaMaxBodyTight(c *channelInstance, m *Message, chunkSize int, chunk
 //@   after "s.getActiveChannelInstance()" ensures result1 == nil ==> seqInv(result0) && result0.algo != nil
 
 // ---------------------------------------------------------------------------
+// C17: an expired token is removed from its channel's list (so no chunk can be verified with it)
+// ---------------------------------------------------------------------------
+
+// the token table: lists hold allocated instances
+//@ pred instancesInv(s *SecureChannel) := s != nil && s.instances != nil &&
+//@     (forall k uint32 :: { s.instances[k] } forall i int :: { at(s.instances[k], i) }
+//@         off(s.instances[k]) <= i && i < off(s.instances[k]) + len(s.instances[k]) ==> at(s.instances[k], i) != nil)
+
+// When the expiry timer fires (the one path on which the table lock is taken, i.e. the ghost release
+// counter moves) the expired token is in no list of its channel afterwards; lists of other channels
+// are left alone.
+//@ func (*SecureChannel).scheduleExpiration
+//@   props C17
+//@   bytes
+//@   requires instancesInv(s) && instance != nil && s.c != nil
+//@   let cid = instance.secureChannelID
+//@   let tid = instance.securityTokenID
+//@   let rel0 = released(&s.instancesMu)
+//@   assigns map(s.instances), held(&s.instancesMu), released(&s.instancesMu)
+//@   ensures [C17:expired-removed] released(&s.instancesMu) != rel0 ==>
+//@           forall i int :: { at(s.instances[cid], i) } off(s.instances[cid]) <= i && i < off(s.instances[cid]) + len(s.instances[cid]) ==>
+//@               at(s.instances[cid], i).securityTokenID != tid
+//@   ensures [C17:other-channels-kept] forall k uint32 :: { s.instances[k] } k != cid ==>
+//@           in(k, s.instances) == old(in(k, s.instances)) && sameslice(s.instances[k], old(s.instances[k]))
+//@   ensures [C17:closing-keeps] released(&s.instancesMu) == rel0 ==> forall k uint32 :: { s.instances[k] }
+//@           in(k, s.instances) == old(in(k, s.instances)) && sameslice(s.instances[k], old(s.instances[k]))
+//@   canary ensures [C17:canary-always-expires] released(&s.instancesMu) != rel0
+//@   loop 0 invariant -1 <= rangeindex && rangeindex < len(oldInstances) && s != nil && s.instances != nil && instance != nil && s.c != nil
+//@   loop 0 invariant forall i int :: { at(oldInstances, i) } off(oldInstances) <= i && i < off(oldInstances) + len(oldInstances) ==> at(oldInstances, i) != nil
+//@   loop 0 invariant [C17:expired-removed] forall i int :: { at(s.instances[cid], i) } off(s.instances[cid]) <= i && i < off(s.instances[cid]) + len(s.instances[cid]) ==>
+//@           at(s.instances[cid], i) != nil && at(s.instances[cid], i).securityTokenID != tid
+//@   loop 0 invariant [C17:other-channels-kept] forall k uint32 :: { s.instances[k] } k != cid ==>
+//@           in(k, s.instances) == old(in(k, s.instances)) && sameslice(s.instances[k], old(s.instances[k]))
+//@   loop 0 invariant fresh(s.instances[cid]) && arr(s.instances[cid]) != arr(oldInstances)
+//@   loop 0 invariant held(&s.instancesMu) && released(&s.instancesMu) == rel0
+
+// ---------------------------------------------------------------------------
 // C12: reassembly of chunk streams
 // ---------------------------------------------------------------------------
 
